@@ -371,6 +371,86 @@ def r4_capacity(ctx, P):
         ctx.inst(R, it["path"], okc, "the empty vector reports capacity usize::MAX for zero-sized element types (selected by T::IS_ZST)",
                  where=b.where(), site="zst capacity")
 
+    # every safe constructor of a FixedBumpVec<T> selects capacity usize::MAX for zero-sized T
+    nz = 0
+    for b in P.fn_bodies():
+        if b.item.get("unsafe"):
+            continue
+        aggs = [(s_, st) for s_, st in b.assigns() if st["r"]["k"] == "agg" and st["r"].get("adt", "") == "fixed_bump_vec::FixedBumpVec"
+                and "capacity" in st["r"].get("fnames", [])]
+        if not aggs:
+            continue
+        nz += 1
+        te, fe = b.cond_edges(lambda e: True if (e[0] == "assoc_const" and e[2] == "IS_ZST") else None)
+        has_max = False
+        for s_, st in aggs:
+            v = b.prov_operand(st["r"]["fields"][st["r"]["fnames"].index("capacity")], s_)
+            for a in phi_alts(v):
+                a = strip_casts(a)
+                if (a[0] == "const_item" and a[1].endswith("MAX")) or (a[0] == "int" and a[1] >= 2 ** 63):
+                    has_max = True
+        ok = bool(te) and has_max
+        ctx.inst(R, b.path, ok, "builds FixedBumpVec with capacity usize::MAX under T::IS_ZST" if ok else
+                 "builds a FixedBumpVec without the zero-sized special case (capacity usize::MAX under IS_ZST): for zero-sized elements "
+                 "the vector reports a finite capacity, is 'full' at once and push / clone+push panic, unlike Vec", where=b.where(),
+                 site="zst capacity in constructor")
+    ctx.floor(R, "safe constructors of FixedBumpVec", nz, 4)
+
+
+def r7_drain_keep_rest(ctx, P, R="C08.R7"):
+    ctx.rule(R, "Drain::keep_rest compacts exactly: the un-yielded part is moved to the drain's start (base + len(head)), the tail "
+                "directly behind it, and the new length ends where the moved tail ends (affine forms over the slice base, "
+                "head/un-yielded/tail lengths); zero-sized elements only get the new length")
+    S = Sym(P, inline_depth=0, effect_names=EFFECTS | {"set_len"}, reader_names=set())
+    Sz = Affine({("S",): 1})
+    bs = [b for b in P.fn_bodies() if b.item["name"] == "keep_rest" and "owned_slice::drain::Drain" in b.path]
+    if not ctx.need(len(bs) == 1, R, "owned_slice::drain::Drain::keep_rest"):
+        return
+    b = bs[0]
+    try:
+        e = S.ret(b.id, want="eff")
+    except Unanalysable as ex:
+        ctx.inst(R, b.path, False, f"not analysable: {ex}", where=b.where(), site="avn")
+        return
+    n = 0
+    for conds, leaf in ite_leaves(e):
+        if leaf[0] != "ret":
+            continue
+        n += 1
+        effs = [ef for ef in leaf[2] if ef[0] == "callfx"]
+        arm = " & ".join(f"{show(c)[:28]}={k}" for c, k in conds) or "single path"
+        sl = [ef for ef in effs if ef[1] == "set_len"]
+        cps = [ef for ef in effs if ef[1].startswith("copy")]
+        ok, why = len(sl) == 1, []
+        if not ok:
+            why.append("no single set_len")
+        else:
+            newlen = affine(sl[0][2][1], elemT)
+            base = None
+            for ef in cps:
+                src, dst, cnt = (affine(ef[2][0], elemT), affine(ef[2][1], elemT), affine(ef[2][2], elemT))
+                is_tail = expr_mentions(ef[2][0], lambda x: x[0] == "field" and x[2] == "tail_start")
+                if is_tail:
+                    # base = src - tail_start * S ; the moved tail must end at base + newlen * S
+                    ts = [x for x in walk_expr(ef[2][0]) if x[0] == "field" and x[2] == "tail_start"][0]
+                    base = src - _mul(affine(ts, elemT), Sz)
+                    if dst + _mul(cnt, Sz) != base + _mul(newlen, Sz):
+                        ok = False
+                        why.append(f"the tail is moved to {dst} (+ {cnt} elements) but the new length ends at base + {newlen}: elements are "
+                                   "lost / duplicated when head and tail are both non-empty")
+                else:
+                    if not expr_mentions(ef[2][0], lambda x: x[0] == "call" and x[1].split("::")[-1] == "as_ptr"):
+                        ok = False
+                        why.append(f"unexpected copy source {show(ef[2][0])[:60]}")
+            if len(cps) == 2 and ok:
+                a, t = (cps[0], cps[1]) if not expr_mentions(cps[0][2][0], lambda x: x[0] == "field" and x[2] == "tail_start") else (cps[1], cps[0])
+                if affine(a[2][1], elemT) + _mul(affine(a[2][2], elemT), Sz) != affine(t[2][1], elemT):
+                    ok = False
+                    why.append("the moved tail does not start where the moved un-yielded part ends")
+        ctx.inst(R, b.path, ok, f"{arm}: {len(cps)} move(s), new length {show(sl[0][2][1])[:60] if sl else '?'}" + ("" if ok else " — " + "; ".join(why)),
+                 where=b.where(), site=f"{arm} compaction")
+    ctx.floor(R, "paths of Drain::keep_rest", n, 4)
+
 
 def r6_zst_sibling_agreement(ctx, P):
     R = "C08.R6"
@@ -434,5 +514,6 @@ def run(ctx, progs):
         r3_shuffles(ctx, P)
         r4_capacity(ctx, P)
         r6_zst_sibling_agreement(ctx, P)
+        r7_drain_keep_rest(ctx, P)
         stale.rule(ctx, P, "C08.R5", ("bump_vec::BumpVec<", "mut_bump_vec::MutBumpVec<", "mut_bump_vec_rev::MutBumpVecRev<"), 20, 25)
     ctx.config = None
